@@ -99,7 +99,7 @@ def finish(meta, src, prop, name):
     dst = "/verif/seeded/%s-%s" % (prop, name)
     os.makedirs(dst, exist_ok=True)
     for f in os.listdir(src):
-        if os.path.isfile(os.path.join(src, f)):
+        if os.path.isfile(os.path.join(src, f)) and os.path.abspath(src) != os.path.abspath(dst):
             shutil.copy(os.path.join(src, f), os.path.join(dst, f))
     readme = os.path.join(src, "README.md")
     if os.path.exists(readme):
